@@ -446,6 +446,9 @@ func AllowReturnShadowing[T any](fn any) Provider {
 // Calls to the invokeFunc do not leak memory except where there are new inputs to
 // providers marked Memoize().
 func (c *Collection) Bind(invokeFunc any, initFunc any) error {
+	if invokeFunc == nil {
+		return fmt.Errorf("Bind must be given a pointer to a function variable for the invoke function, not nil")
+	}
 	if err := c.bindFast(invokeFunc, initFunc); err != nil {
 		invokeF := newProvider(invokeFunc, -1, c.name+" invoke func")
 		var initF *provider
@@ -490,6 +493,9 @@ func (c *Collection) bindFast(invokeFunc any, initFunc any) error {
 // injection chain.
 func (c *Collection) SetCallback(setCallbackFunc any) error {
 	setter := reflect.ValueOf(setCallbackFunc)
+	if !setter.IsValid() {
+		return fmt.Errorf("SetCallback must be passed a function")
+	}
 	setterType := setter.Type()
 	if setterType.Kind() != reflect.Func {
 		return fmt.Errorf("SetCallback must be passed a function")
